@@ -528,10 +528,16 @@ pub fn nested_family() -> Vec<String> {
                         let gd = format!("g : (int -> int) = (y : int) => {gb}");
                         let mut defs = if f_first { vec![fd, gd] } else { vec![gd, fd] };
                         let body = if res.is_empty() { body.replace('r', "f 3") } else { body.to_owned() };
+                        // with and without two further, independent helper functions after f and g
+                        let mut with_helpers = defs.clone();
+                        with_helpers.push("h : (int -> int) = (w : int) => w * 3".to_owned());
+                        with_helpers.push("k : (int -> int) = (w : int) => 0 - w".to_owned());
                         if !res.is_empty() {
                             defs.push(res.to_owned());
+                            with_helpers.push(res.to_owned());
                         }
                         out.push(format!("{}; {body}", defs.join("; ")));
+                        out.push(format!("{}; {body}", with_helpers.join("; ")));
                     }
                 }
             }
